@@ -236,106 +236,123 @@ def big_stream(rng, mebibyte: bool = False):
             "frames": wire.dec_stream(data, delimited), "physical": 1, "mode": "generic"}
 
 
+def _iteration(ctx, rng, i, tmpdir):
+    if i == 2 and ctx.shard == 0:
+        vs = big_stream(rng, mebibyte=True)    # > 1 MiB, once per run
+        vs["mode"] = "rdf11"
+        ctx.observe("big-streams(>1MiB)")
+    elif i % 40 == 1:
+        vs = big_stream(rng)          # > 64 KiB: read sizes that no small stream can expose
+        ctx.observe("big-streams(>64KiB)")
+    elif i % 8 == 3:
+        # first frame of exactly 10 (or 9..12, 127, 128) bytes: headers 0A 0A NN etc. under short reads
+        vs = workloads.crafted_header_stream(rng, rng.choice([10, 10, 10, 11, 12, 127, 128, 130]))
+        ctx.observe(f"crafted-first-frame-length:{vs['first_frame_len']}")
+    else:
+        vs = workloads.valid_stream(rng, mode=rng.choice(["generic", "rdf11"]), max_len=20)
+        if vs is not None and vs["delimited"] and i % 5 == 2:
+            # the stream opens with 1-3 frames that hold no rows: zero-length keep-alives or metadata-only heartbeats
+            from .. import wire as _wire
+            lead = [{"rows": [], "metadata": ([("hb", bytes([k]))] if rng.random() < .5 else [])} for k in range(rng.randint(1, 3))]
+            frames = lead + [{"rows": f["rows"], "metadata": f.get("metadata") or []} for f in vs["frames"]]
+            data2 = _wire.enc_stream(frames, True)
+            vs = dict(vs, data=data2, frames=_wire.dec_stream(data2, True), producer=vs["producer"] + "+leading-rowless-frames")
+            ctx.observe("streams-opening-with-rowless-frames")
+    if vs is None:
+        return
+    data = vs["data"]
+    # rdflib entry points only for RDF 1.1 content (pyjelly-written generic-mode streams may hold RDF-star)
+    rdf11 = vs.get("mode") == "rdf11" or vs["producer"] == "crafted-header"
+    integ = "rdflib" if rdf11 and rng.random() < .5 else "generic"
+    entry = rng.choice(["flat", "flat", "grouped", "to_graph"] + (["plugin", "plugin"] if integ == "rdflib" else []))
+    if i == 2 and ctx.shard == 0:
+        integ, entry = "rdflib", "plugin"
+    base, exc = parse_from(integ, entry, io.BytesIO(data))
+    if exc is not None or (entry == "flat" and base != T.norm_events(vs["events"])):
+        # the in-memory buffer is itself one of the sources the property names
+        ctx.violation({"clause": "raised" if exc is not None else "events-differ", "source": "bytesio",
+                       "schedule_name": "n/a", "schedule": [], "first_read": None, "read_log": [],
+                       "bytes": data.hex() if len(data) < 20000 else data[:2000].hex(), "n_bytes": len(data),
+                       "delimited": vs["delimited"], "entry": entry, "producer": vs["producer"], "integration": integ,
+                       "summary": f"BytesIO ({len(data)} bytes, delimited={vs['delimited']}): "
+                                  + (f"{type(exc).__name__}: {str(exc)[:120]}" if exc is not None
+                                     else "events differ from the intended events")})
+        ctx.case((gen.case_hash(data), "bytesio"), False)
+        return
+    scheds = schedules(rng, data, vs["frames"])
+    if len(data) > 60000:
+        scheds = [(n, sc) for n, sc in scheds if n in ("1-1-k", "2-k", "1-k", "random-big")] + \
+            [("all-4096", [4096]), ("all-65536", [65536])]
+    kinds = list(KINDS)
+    if len(data) > 1_000_000:
+        kinds = ["gzip-over-nonseekable", "gzip", "gzip-file", "file", "dribble-buffered", "pipe-buffered", "seekable-dribble-buffered"]
+        scheds = [(n, sc) for n, sc in scheds if n in ("2-k", "all-65536")]
+    for kind in kinds:
+        these = scheds if kind.startswith(("dribble", "seekable-dribble")) else [rng.choice(scheds)]
+        if not kind.startswith(("dribble", "pipe", "socket", "seekable-dribble", "gzip-over")):
+            these = [("n/a", None)]
+        for sname, sched in these:
+            got, exc, log = run_source(kind, data, sched, integ, entry, tmpdir)
+            ctx.observe(f"source:{kind}")
+            first = next((g for _r, g in (log or []) if g > 0), None)
+            if first is not None and first < 3:
+                ctx.observe("schedules-first-read-lt3")
+            w = None
+            if exc is not None:
+                w = {"clause": "raised", "summary": f"{kind}/{sname}: {type(exc).__name__}: {str(exc)[:150]}"}
+            elif got != base:
+                w = {"clause": "events-differ", "summary": f"{kind}/{sname}: {len(got)} events vs baseline {len(base)}"}
+            if w:
+                w.update({"integration": integ, "source": kind, "schedule_name": sname, "schedule": (sched or [])[:70],
+                          "first_read": first, "read_log": (log or [])[:12], "bytes": data.hex(),
+                          "delimited": vs["delimited"], "entry": entry, "producer": vs["producer"]})
+                ctx.violation(w)
+            key = (gen.case_hash(data), kind, tuple(log[:200]) if log else sname)
+            ctx.case(key, nontrivial(log, data, vs["frames"]),
+                     sample={"source": kind, "schedule": sname, "delimited": vs["delimited"], "bytes": len(data),
+                             "read_log_head": (log or [])[:8]})
+    # transport FAILURES are not structure either: a read that raises must not be taken for the end of the stream
+    if vs["delimited"] and len(vs["frames"]) >= 2:
+        for exc_type in (ConnectionResetError, BrokenPipeError, ConnectionAbortedError, TimeoutError, OSError):
+            b0 = vs["frames"][rng.randrange(len(vs["frames"]) - 1)]["span"][1]
+            fail_at = b0 if rng.random() < .6 else rng.randint(1, len(data) - 1)
+            buffered = rng.random() < .5
+            raw = sources.FailingRaw(data, rng.choice([[1 << 20], [7], [1]]), fail_at, exc_type)
+            got, exc2 = parse_from(integ, entry, io.BufferedReader(raw) if buffered else raw)
+            ctx.observe("transport-failure-runs")
+            ctx.observe(f"transport-failure:{exc_type.__name__}")
+            if exc2 is None and got != base:
+                ctx.violation({"clause": "transport-failure-taken-for-end-of-stream", "integration": integ, "entry": entry,
+                               "source": "failing-raw" + ("-buffered" if buffered else ""), "schedule_name": "n/a",
+                               "schedule": [], "first_read": None, "bytes": data.hex(), "fail_at": fail_at,
+                               "exception": exc_type.__name__, "delimited": True, "producer": vs["producer"],
+                               "summary": f"{integ}:{entry}: the source raised {exc_type.__name__} after {fail_at} of {len(data)} "
+                                          f"bytes; the parse ENDED NORMALLY with {len(got)} of {len(base)} events"})
+            ctx.case((gen.case_hash(data), "failing", exc_type.__name__, fail_at), True,
+                     sample={"source": "failing-raw", "exception": exc_type.__name__, "fail_at": fail_at, "bytes": len(data)})
+
+
+def child_case(ctx, rng, k):
+    tmpdir = tempfile.mkdtemp(prefix="rv-c09-O-")
+    try:
+        _iteration(ctx, rng, 100 + k, tmpdir)
+    finally:
+        import shutil
+        shutil.rmtree(tmpdir, ignore_errors=True)
+
+
 def run_shard(ctx):
     tmpdir = tempfile.mkdtemp(prefix="rv-c09-")
     try:
+        if ctx.shard == 1 % ctx.nshards:
+            # a slice again in an interpreter started with -O: reading must not depend on an assert being executed
+            from .. import childopt
+            childopt.run(ctx, ID, 25 if ctx.tier == "quick" else 300, timeout=900)
         i = 0
         while not ctx.out_of_time():
             rng = ctx.rng(i)
             i += 1
-            if i == 2 and ctx.shard == 0:
-                vs = big_stream(rng, mebibyte=True)    # > 1 MiB, once per run
-                vs["mode"] = "rdf11"
-                ctx.observe("big-streams(>1MiB)")
-            elif i % 40 == 1:
-                vs = big_stream(rng)          # > 64 KiB: read sizes that no small stream can expose
-                ctx.observe("big-streams(>64KiB)")
-            elif i % 8 == 3:
-                # first frame of exactly 10 (or 9..12, 127, 128) bytes: headers 0A 0A NN etc. under short reads
-                vs = workloads.crafted_header_stream(rng, rng.choice([10, 10, 10, 11, 12, 127, 128, 130]))
-                ctx.observe(f"crafted-first-frame-length:{vs['first_frame_len']}")
-            else:
-                vs = workloads.valid_stream(rng, mode=rng.choice(["generic", "rdf11"]), max_len=20)
-                if vs is not None and vs["delimited"] and i % 5 == 2:
-                    # the stream opens with 1-3 frames that hold no rows: zero-length keep-alives or metadata-only heartbeats
-                    from .. import wire as _wire
-                    lead = [{"rows": [], "metadata": ([("hb", bytes([k]))] if rng.random() < .5 else [])} for k in range(rng.randint(1, 3))]
-                    frames = lead + [{"rows": f["rows"], "metadata": f.get("metadata") or []} for f in vs["frames"]]
-                    data2 = _wire.enc_stream(frames, True)
-                    vs = dict(vs, data=data2, frames=_wire.dec_stream(data2, True), producer=vs["producer"] + "+leading-rowless-frames")
-                    ctx.observe("streams-opening-with-rowless-frames")
-            if vs is None:
-                continue
-            data = vs["data"]
-            # rdflib entry points only for RDF 1.1 content (pyjelly-written generic-mode streams may hold RDF-star)
-            rdf11 = vs.get("mode") == "rdf11" or vs["producer"] == "crafted-header"
-            integ = "rdflib" if rdf11 and rng.random() < .5 else "generic"
-            entry = rng.choice(["flat", "flat", "grouped", "to_graph"] + (["plugin", "plugin"] if integ == "rdflib" else []))
-            if i == 2 and ctx.shard == 0:
-                integ, entry = "rdflib", "plugin"
-            base, exc = parse_from(integ, entry, io.BytesIO(data))
-            if exc is not None or (entry == "flat" and base != T.norm_events(vs["events"])):
-                # the in-memory buffer is itself one of the sources the property names
-                ctx.violation({"clause": "raised" if exc is not None else "events-differ", "source": "bytesio",
-                               "schedule_name": "n/a", "schedule": [], "first_read": None, "read_log": [],
-                               "bytes": data.hex() if len(data) < 20000 else data[:2000].hex(), "n_bytes": len(data),
-                               "delimited": vs["delimited"], "entry": entry, "producer": vs["producer"],
-                               "summary": f"BytesIO ({len(data)} bytes, delimited={vs['delimited']}): "
-                                          + (f"{type(exc).__name__}: {str(exc)[:120]}" if exc is not None
-                                             else "events differ from the intended events")})
-                ctx.case((gen.case_hash(data), "bytesio"), False)
-                continue
-            scheds = schedules(rng, data, vs["frames"])
-            if len(data) > 60000:
-                scheds = [(n, sc) for n, sc in scheds if n in ("1-1-k", "2-k", "1-k", "random-big")] + \
-                    [("all-4096", [4096]), ("all-65536", [65536])]
-            kinds = list(KINDS)
-            if len(data) > 1_000_000:
-                kinds = ["gzip-over-nonseekable", "gzip", "gzip-file", "file", "dribble-buffered", "pipe-buffered", "seekable-dribble-buffered"]
-                scheds = [(n, sc) for n, sc in scheds if n in ("2-k", "all-65536")]
-            for kind in kinds:
-                these = scheds if kind.startswith(("dribble", "seekable-dribble")) else [rng.choice(scheds)]
-                if not kind.startswith(("dribble", "pipe", "socket", "seekable-dribble", "gzip-over")):
-                    these = [("n/a", None)]
-                for sname, sched in these:
-                    got, exc, log = run_source(kind, data, sched, integ, entry, tmpdir)
-                    ctx.observe(f"source:{kind}")
-                    first = next((g for _r, g in (log or []) if g > 0), None)
-                    if first is not None and first < 3:
-                        ctx.observe("schedules-first-read-lt3")
-                    w = None
-                    if exc is not None:
-                        w = {"clause": "raised", "summary": f"{kind}/{sname}: {type(exc).__name__}: {str(exc)[:150]}"}
-                    elif got != base:
-                        w = {"clause": "events-differ", "summary": f"{kind}/{sname}: {len(got)} events vs baseline {len(base)}"}
-                    if w:
-                        w.update({"integration": integ, "source": kind, "schedule_name": sname, "schedule": (sched or [])[:70],
-                                  "first_read": first, "read_log": (log or [])[:12], "bytes": data.hex(),
-                                  "delimited": vs["delimited"], "entry": entry, "producer": vs["producer"]})
-                        ctx.violation(w)
-                    key = (gen.case_hash(data), kind, tuple(log[:200]) if log else sname)
-                    ctx.case(key, nontrivial(log, data, vs["frames"]),
-                             sample={"source": kind, "schedule": sname, "delimited": vs["delimited"], "bytes": len(data),
-                                     "read_log_head": (log or [])[:8]})
-            # transport FAILURES are not structure either: a read that raises must not be taken for the end of the stream
-            if vs["delimited"] and len(vs["frames"]) >= 2:
-                for exc_type in (ConnectionResetError, BrokenPipeError, ConnectionAbortedError, TimeoutError, OSError):
-                    b0 = vs["frames"][rng.randrange(len(vs["frames"]) - 1)]["span"][1]
-                    fail_at = b0 if rng.random() < .6 else rng.randint(1, len(data) - 1)
-                    buffered = rng.random() < .5
-                    raw = sources.FailingRaw(data, rng.choice([[1 << 20], [7], [1]]), fail_at, exc_type)
-                    got, exc2 = parse_from(integ, entry, io.BufferedReader(raw) if buffered else raw)
-                    ctx.observe("transport-failure-runs")
-                    ctx.observe(f"transport-failure:{exc_type.__name__}")
-                    if exc2 is None and got != base:
-                        ctx.violation({"clause": "transport-failure-taken-for-end-of-stream", "integration": integ, "entry": entry,
-                                       "source": "failing-raw" + ("-buffered" if buffered else ""), "schedule_name": "n/a",
-                                       "schedule": [], "first_read": None, "bytes": data.hex(), "fail_at": fail_at,
-                                       "exception": exc_type.__name__, "delimited": True, "producer": vs["producer"],
-                                       "summary": f"{integ}:{entry}: the source raised {exc_type.__name__} after {fail_at} of {len(data)} "
-                                                  f"bytes; the parse ENDED NORMALLY with {len(got)} of {len(base)} events"})
-                    ctx.case((gen.case_hash(data), "failing", exc_type.__name__, fail_at), True,
-                             sample={"source": "failing-raw", "exception": exc_type.__name__, "fail_at": fail_at, "bytes": len(data)})
+            _iteration(ctx, rng, i, tmpdir)
     finally:
         import shutil
         shutil.rmtree(tmpdir, ignore_errors=True)
@@ -350,6 +367,9 @@ def replay(w: dict):
         got, exc2 = parse_from(integ, w["entry"], io.BufferedReader(raw) if w["source"].endswith("buffered") else raw)
         return {"clause": w["clause"], "summary": "still ends normally"} if exc2 is None and got != base else None
     data = bytes.fromhex(w["bytes"])
+    if w.get("source") == "bytesio":
+        _b, exc = parse_from(w.get("integration", "generic"), w["entry"], io.BytesIO(data))
+        return {"clause": "raised", "summary": f"BytesIO: {type(exc).__name__}: {exc}"} if exc is not None else None
     tmpdir = tempfile.mkdtemp(prefix="rv-c09-")
     try:
         integ = w.get("integration", "generic")
